@@ -29,13 +29,15 @@ TokVerdict(ti, to) ==
   ELSE IF "Rewrite" \in cls /\ to \notin Rewrites(ti, wl, pm) THEN "Rewrite"
   ELSE "ok"
 
+TokenClauses == cls \cap {"Rewrite", "ReservedKept"} # {}
 LineVerdict(e) ==
-  LET Ti == Tokens(e.in)  To == Tokens(e.out) IN
-  IF Len(Ti) # Len(To) \/ Lead(e.in) # Lead(e.out) \/ Trail(e.in) # Trail(e.out) THEN "Structure"
+  LET Ti == Tokens(e.in)  To == Tokens(e.out)
+      surv == IF "Survivor" \in cls /\ ~NoSurvivor(e.out, wl, rs) THEN "Survivor" ELSE "ok" IN
+  IF ~TokenClauses THEN surv            \* e.g. lines that another stage restructures: only "no listed word survives"
+  ELSE IF Len(Ti) # Len(To) \/ Lead(e.in) # Lead(e.out) \/ Trail(e.in) # Trail(e.out) THEN "Structure"
   ELSE LET bad == {k \in 1..Len(Ti) : TokVerdict(Ti[k], To[k]) # "ok"} IN
        IF bad # {} THEN TokVerdict(Ti[CHOOSE k \in bad : \A j \in bad : k <= j], To[CHOOSE k \in bad : \A j \in bad : k <= j])
-       ELSE IF "Survivor" \in cls /\ ~NoSurvivor(e.out, wl, rs) THEN "Survivor"
-       ELSE "ok"
+       ELSE surv
 
 TraceInit == l = 1 /\ cls = {} /\ wl = {} /\ rs = {} /\ pm = << >> /\ words = {} /\ order = << >> /\ tok = << >>
 TraceNext ==
